@@ -1147,6 +1147,14 @@ def _slice_starts_with(I, ci, v, p):
     return conj([struct_eq(I, x, y) for x, y in zip(a, b)])
 
 
+@model('slice::chunks_exact')
+def _chunks_exact(I, ci, v, n):
+    from models_iter import ListIter
+    s = as_slice(peel(v))
+    k = len(s) // n
+    return ListIter([Slice(s.back, s.lo + i * n, s.lo + (i + 1) * n) for i in range(k)])
+
+
 @model('slice::windows', 'slice::chunks')
 def _windows(I, ci, v, n):
     from models_iter import ListIter
